@@ -214,7 +214,7 @@ def run(ctx):
     n = 0
     for name, text in model_runs(ctx.quick):
         res = run_cfg(ctx, "MCCoincidence", name, text)
-        for doc in res.printed:
+        for doc in ctx.sample([d for d in res.printed if "kind" in d], 40000):
             if "kind" in doc:
                 n += 1
                 replay_doc(ctx, doc, n)
